@@ -508,6 +508,36 @@ pub fn run_case(out: &mut Out, header: &str) {
         },
         _ => out.oracle_fail(Fail::new("second-save-failed").with("op", header)),
     }
+    // a LAZILY opened copy of the first save, of which only the last sheet is touched (deserialized) before it is saved
+    // again: the sheets before it are copied raw with their comments / drawing / table parts under their original names,
+    // the touched sheet's parts are numbered afresh; every sheet must keep its own annotations
+    if back.get_sheet_count() >= 2 {
+        let r = guard(|| -> Result<Vec<(String, String)>, String> {
+            let mut lazy = umya_spreadsheet::reader::xlsx::read_reader(std::io::Cursor::new(bytes.clone()), false).map_err(|e| format!("{:?}", e))?;
+            let last = lazy.get_sheet_count() - 1;
+            lazy.get_sheet_mut(&last).ok_or("no last sheet")?.get_cell_mut((1u32, 1u32));
+            let b3 = wb::save_bytes(&lazy, false)?;
+            let back3 = reload(&b3)?;
+            Ok(wb::annot_entries(&back3))
+        });
+        out.count("lazy-resave.last-sheet-touched");
+        match r {
+            Ok(Ok(d3)) => {
+                let dd = wb::annot_diffs(&d1, &d3);
+                if dd.is_empty() {
+                    out.oracle_ok();
+                }
+                let mut seen: std::collections::BTreeSet<(String, String)> = Default::default();
+                for (kind, field, detail) in dd {
+                    if seen.insert((kind.clone(), field.clone())) {
+                        out.oracle_fail(Fail::new("lazy-resave-differs").with("op", header).with("kind", &kind).with("field", &field).with("detail", &detail[..detail.len().min(900)]));
+                    }
+                }
+            }
+            Ok(Err(e)) => out.oracle_fail(Fail::new("lazy-resave-failed").with("op", header).with("detail", e)),
+            Err(_) => out.oracle_fail(Fail::new("lazy-resave-failed").with("op", header).with("detail", "panic")),
+        }
+    }
     // the dump itself goes to the evidence stream (informational for the model: echoed)
     if let Ok(parts) = unzip_all(&bytes) {
         let _ = guard(|| tie(out, &book, &parts, &back));
